@@ -32,16 +32,22 @@
 (*   * RoundTripTrace.tla replays the histories recorded from the real      *)
 (*     library (harness/c19) through the machine, event by event.           *)
 (*                                                                          *)
-(* OBSERVATIONS.  `obs` is a record                                         *)
-(*   [status, shape, dh, dl, ch, cl, cfx, fin, s]                           *)
-(* status = "ok" | "err" | "panic" (of the predict / transform call);       *)
-(* dh/dl = the two 32-bit halves of the IEEE bit pattern of every DISCRETE  *)
-(* output (class label, cluster id, neighbour index, result count);         *)
-(* ch/cl = the same for every CONTINUOUS output (regression value, decision *)
-(* value, projected coordinate, distance, kernel value); cfx = the          *)
-(* continuous outputs in fixed point, round(v * 2^s), s chosen per object   *)
-(* so that |cfx| <= 2^29 (s = 16 for values up to 8192); fin = every        *)
-(* continuous value is finite and within range.                             *)
+(* OBSERVATIONS.  `obs` = [status, s, parts]: status = "ok" | "panic" of    *)
+(* the observation as a whole; parts = one record per PUBLIC OUTPUT-PRODUCING *)
+(* METHOD of the type (predict, predict_oob, decision_function, transform,  *)
+(* components / coefficients / intercept and the other read accessors,      *)
+(* find / find_radius, distance, apply), each                               *)
+(*   [name, status, shape, dh, dl, ch, cl, cfx, cok]                        *)
+(* status = "ok" | "err" of that call; dh/dl = the two 32-bit halves of the  *)
+(* IEEE bit pattern of every DISCRETE output (class label, cluster id,      *)
+(* neighbour index, count); ch/cl = the same for every CONTINUOUS output    *)
+(* (regression value, decision value, projected coordinate, coefficient,    *)
+(* distance, kernel value); cfx = the continuous outputs in fixed point,    *)
+(* round(v * 2^s), s chosen per object so that |cfx| <= 2^29 (s = 16 for    *)
+(* values up to 8192); cok[i] = value i is finite and within range.         *)
+(* A method the ORIGINAL refuses (e.g. predict_oob of a forest fitted       *)
+(* without keep_samples) carries no obligation; a method the original       *)
+(* answers must be answered identically by the restored object.             *)
 (*                                                                          *)
 (* dig = 64-bit digest of the object's complete binary serialisation        *)
 (* (two halves); xd / yd = digests of the training rows / targets.          *)
@@ -53,44 +59,61 @@ Abs(x) == IF x < 0 THEN 0 - x ELSE x
 (***************************************************************************)
 (* Comparing observations                                                   *)
 (***************************************************************************)
-ObsOk(o) == o.status = "ok"
+PartOk(p) == p.status = "ok"
+(* the observation was made and at least one method answered *)
+ObsOk(o) == o.status = "ok" /\ \E i \in 1..Len(o.parts) : PartOk(o.parts[i])
+
+(* every method the first object answers is answered by the second *)
+AnswersAll(o1, o2) ==
+    /\ o2.status = "ok"
+    /\ Len(o1.parts) = Len(o2.parts)
+    /\ \A i \in 1..Len(o1.parts) : PartOk(o1.parts[i]) => PartOk(o2.parts[i])
 
 (* bit-for-bit identical: what a binary format must preserve *)
-BitsEq(o1, o2) ==
-    /\ o1.shape = o2.shape
-    /\ o1.dh = o2.dh /\ o1.dl = o2.dl
-    /\ o1.ch = o2.ch /\ o1.cl = o2.cl
+PartBitsEq(p, q) ==
+    /\ p.shape = q.shape
+    /\ p.dh = q.dh /\ p.dl = q.dl
+    /\ p.ch = q.ch /\ p.cl = q.cl
 
-DiscreteEq(o1, o2) ==
-    /\ o1.shape = o2.shape
-    /\ o1.dh = o2.dh /\ o1.dl = o2.dl
-    /\ Len(o1.ch) = Len(o2.ch)
+PartDiscreteEq(p, q) ==
+    /\ p.shape = q.shape
+    /\ p.dh = q.dh /\ p.dl = q.dl
+    /\ Len(p.ch) = Len(q.ch)
 
 (* "up to the decimal rounding of floating-point numbers": every continuous
    output within ONE unit of the fixed-point grid (2^-16 for ordinary
    magnitudes -- eleven orders of magnitude coarser than a decimal
    rounding of a double, so a correct JSON round trip can never fail it,
-   and any wrong field, index, sign or shape does).  When the original
-   already produced a non-finite value nothing is demanded of the values
-   (JSON cannot represent them). *)
-ValuesWithin1(o1, o2) ==
-    \/ ~o1.fin
-    \/ /\ o2.fin
-       /\ Len(o1.cfx) = Len(o2.cfx)
-       /\ \A i \in 1..Len(o1.cfx) : Abs(o1.cfx[i] - o2.cfx[i]) <= 1
+   and any wrong field, index, sign or shape does).  Where the original
+   itself produced a non-finite value nothing is demanded of that value
+   (JSON cannot represent it). *)
+PartValuesWithin1(p, q) ==
+    /\ Len(p.cfx) = Len(q.cfx)
+    /\ \A i \in 1..Len(p.cfx) :
+          p.cok[i] => (q.cok[i] /\ Abs(p.cfx[i] - q.cfx[i]) <= 1)
 
-(* two objects are OBSERVABLY DIFFERENT on the query input: some discrete
-   output differs, or some continuous output differs by more than the
-   slack above.  Used as a premise of the "does not equal" clause, so that
-   two fits that happen to produce the same function (or functions equal
-   up to rounding) are never required to compare unequal. *)
+(* lifted to whole observations, over the methods the original answers *)
+OverAnswered(o1, o2, Rel(_, _)) ==
+    \A i \in 1..Len(o1.parts) : PartOk(o1.parts[i]) => Rel(o1.parts[i], o2.parts[i])
+BitsEq(o1, o2) == OverAnswered(o1, o2, PartBitsEq)
+DiscreteEq(o1, o2) == OverAnswered(o1, o2, PartDiscreteEq)
+ValuesWithin1(o1, o2) == OverAnswered(o1, o2, PartValuesWithin1)
+
+(* two objects are OBSERVABLY DIFFERENT on the query input: for some method
+   both answer, a discrete output differs or a continuous output differs by
+   more than the slack above.  Used as a premise of the "does not equal"
+   clause, so that two fits that happen to produce the same function (or
+   functions equal up to rounding) are never required to compare unequal. *)
+PartClearlyDiffer(p, q) ==
+    \/ p.shape # q.shape
+    \/ p.dh # q.dh \/ p.dl # q.dl
+    \/ Len(p.cfx) # Len(q.cfx)
+    \/ \E i \in 1..Len(p.cfx) : p.cok[i] /\ q.cok[i] /\ Abs(p.cfx[i] - q.cfx[i]) > 1
 ClearlyDiffer(o1, o2) ==
-    /\ ObsOk(o1) /\ ObsOk(o2)
-    /\ \/ o1.shape # o2.shape
-       \/ o1.dh # o2.dh \/ o1.dl # o2.dl
-       \/ Len(o1.cfx) # Len(o2.cfx)
-       \/ /\ o1.fin /\ o2.fin
-          /\ \E i \in 1..Len(o1.cfx) : Abs(o1.cfx[i] - o2.cfx[i]) > 1
+    /\ o1.status = "ok" /\ o2.status = "ok"
+    /\ Len(o1.parts) = Len(o2.parts)
+    /\ \E i \in 1..Len(o1.parts) :
+          PartOk(o1.parts[i]) /\ PartOk(o2.parts[i]) /\ PartClearlyDiffer(o1.parts[i], o2.parts[i])
 
 IsJson(fmt) == fmt \in {"json", "jsonperm"}
 Formats == {"bincode", "json", "jsonperm"}
@@ -98,8 +121,7 @@ Formats == {"bincode", "json", "jsonperm"}
 (***************************************************************************)
 (* The history state                                                        *)
 (***************************************************************************)
-NoObs == [status |-> "none", shape |-> <<0, 0>>, dh |-> <<>>, dl |-> <<>>,
-          ch |-> <<>>, cl |-> <<>>, cfx |-> <<>>, fin |-> TRUE, s |-> 0]
+NoObs == [status |-> "none", s |-> 0, parts |-> <<>>]
 
 Idle == [phase |-> "idle", det |-> FALSE, sup |-> FALSE, prec |-> 64, hasEq |-> FALSE,
          obs |-> NoObs, dig |-> <<0, 0>>, digok |-> FALSE, xd |-> <<0, 0>>, yd |-> <<0, 0>>,
@@ -162,12 +184,14 @@ V_Ser(st, e) == IF e.status = "ok" THEN "" ELSE "SerFails"
    object ... produces identical predictions, decision values or transforms
    on arbitrary inputs -- bit-for-bit through a binary format, up to the
    decimal rounding of floating-point numbers through JSON".
-   Premise: the original answered the query (if it refused, nothing is said
-   about the copy). *)
+   Premise: the original answered (a method the original refuses carries no
+   obligation); every method it answers -- not only `predict`: also
+   predict_oob, decision_function, the read accessors ... -- must be
+   answered by the copy, with the same outputs. *)
 V_De(st, e) ==
     IF e.status # "ok" THEN "DeFails"
     ELSE IF ~ObsOk(st.obs) THEN ""
-    ELSE IF ~ObsOk(e.obs) THEN "RestoredRefuses"
+    ELSE IF ~AnswersAll(st.obs, e.obs) THEN "RestoredRefuses"
     ELSE IF e.fmt = "bincode"
          THEN (IF BitsEq(st.obs, e.obs) THEN "" ELSE "BincodeBits")
          ELSE IF ~DiscreteEq(st.obs, e.obs) THEN "JsonDiscrete"
